@@ -236,7 +236,7 @@ def _shorten(s, n=400):
 
 # ------------------------------------------------------------------ listing (`hyeong check`)
 
-LIST_RE = re.compile(r'^(\d+) *\| (.*):(\d+):(\d+) +(\S)_(\d+)_(\d+) (\S+)$')
+LIST_RE = re.compile(r'^ *(\d+) *\| *(.*):(\d+):(\d+) +(\S)_(\d+)_(\d+) +(\S+) *$')
 
 
 def listing_task(prop, texts, tag):
